@@ -278,21 +278,21 @@ def rule_units(ctx, rule="R3"):
            "unit table (%s) must be exactly s -> 1, ms -> 0.001, anything else an error; it is %s"
            % (b["path"], {k: [v if v is not None else "Err" for v in vs] for k, vs in table.items()}), b["span"],
            what="unit-table-wrong")
-    # percent scale and from/to positions: constants in builder_append_keyframe
-    b2 = F.one(crate=PARSER_CRATE, name="builder_append_keyframe")
+    # percent scale and from/to positions: the only float constants of the macro crate outside the unit table
+    # (wherever the emission code keeps them - the function is not looked up by name)
     consts = set()
-    for blk in b2["blocks"]:
-        for s in blk["stmts"]:
-            if s["k"] == "assign":
-                rv = s["rv"]
-                for key in ("op", "a", "b"):
-                    o = rv.get(key)
-                    if isinstance(o, dict) and o.get("k") == "const" and "f" in o and o["ty"] == "f32":
-                        consts.add(struct.unpack("f", struct.pack("f", float(o["f"])))[0])
+    sites = []
+    for bb in F.find(crate=PARSER_CRATE):
+        if bb["id"] == b["id"] or bb.get("parent") == b["id"]:
+            continue
+        here = {f32(float(o["f"])) for o in _consts_of(bb) if "f" in o and o.get("ty") in ("f32", "f64")}
+        if here:
+            sites.append(bb["path"])
+            consts |= here
     ok2 = consts == {0.0, 1.0, f32(0.01)}
     ctx.ob(rule, "keyframe-positions", ok2,
-           "keyframe positions must use exactly from -> 0.0, to -> 1.0 and percent * 0.01; f32 constants found: %s"
-           % sorted(consts), b2["span"], what="position-constants-wrong")
+           "keyframe positions must use exactly from -> 0.0, to -> 1.0 and percent * 0.01; float constants found in %s: %s"
+           % (sites, sorted(consts)), what="position-constants-wrong")
 
 
 def rule_negatives(ctx, rule="R4"):
